@@ -87,7 +87,7 @@ Section EzProofs.
     unfold ez_run, ez_expected, d_config. rewrite (compose3 _ blank_ok), blank_stack. cbn [ez_params p_skip p_delay negb andb].
     cbn [d_cur]. destruct (config_path v0) as [p|] eqn:Ep.
     - (* a config file is named *)
-      unfold blank_set_source. cbn [b_inner].
+      unfold blank_set_source. cbn [b_inner d_alive existsb orb negb].
       destruct watch eqn:Ew; cbn [src_value].
       + destruct (file_value p) as [fl|c|c] eqn:Ef; cbn [fst snd].
         * unfold d_update. cbn [d_slots set_nth]. rewrite (compose3 fl (Hfile p fl Ef)). fold (full fl).
@@ -214,14 +214,14 @@ Section BlankProofs.
      what reaches the config is exactly a value update of slot 0 with the
      inner source's value - as if the inner source had reported it natively *)
   Lemma blank_delegates_latest_l b st s v :
-    src_value s = Ok v ->
+    src_value s = Ok v -> d_alive st = true ->
     (forall old, b_inner b = Some old -> is_watcher old = false) ->
     let '(b', st', r) := set_source b st s in
     b_inner b' = Some s /\ blank_value fs b' = Ok v /\
     st' = fst (d_update fs defaults verify prm st 0 v) /\
     (is_ok r = true -> snd (d_update fs defaults verify prm st 0 v) = Ok tt).
   Proof.
-    intros Hv Hold. unfold blank_set_source.
+    intros Hv Hal Hold. unfold blank_set_source. rewrite Hal. cbn [negb].
     destruct (b_inner b) as [old|] eqn:Ei; [rewrite (Hold old eq_refl)|]; rewrite Hv;
       destruct (d_update fs defaults verify prm st 0 v) as [st' r] eqn:Eu; cbn [fst snd];
       destruct r as [[]|c|c]; try (destruct s as [sv|sv [|]]); cbn in *;
@@ -237,24 +237,26 @@ Section BlankProofs.
     end.
   Proof. reflexivity. Qed.
 
-  (* once a watching source is inside, no sequence of SetSource / Done calls
-     changes the inner source or lets the Blank signal Done *)
-  Inductive blank_op := OpSet (s : inner_src) | OpDone.
-
-  Definition blank_step (bs : blank * dstate) (o : blank_op) : blank * dstate :=
-    match o with
-    | OpSet s => let '(b', st', _) := set_source (fst bs) (snd bs) s in (b', st')
-    | OpDone => (fst bs, blank_done (fst bs) (snd bs))
-    end.
+  (* once a watching source is inside, no sequence of SetSource / Done / report
+     operations replaces it, and the Blank never signals Done for the slot *)
+  Notation step := (blank_step fs defaults verify prm).
 
   Lemma watcher_sticky_l ops : forall b st w, b_inner b = Some w -> is_watcher w = true ->
-    fold_left blank_step ops (b, st) = (b, st).
+    let '(b', st') := fold_left (fun bs o => fst (step bs o)) ops (b, st) in
+    b' = b /\ d_watching st' = d_watching st.
   Proof.
-    induction ops as [|o ops IH]; intros b st w Hi Hw; [reflexivity|]. cbn [fold_left].
-    assert (E : blank_step (b, st) o = (b, st)).
-    { destruct o as [s|]; cbn [blank_step fst snd].
-      - rewrite (blank_refuses_replacing_watcher_l b st w s Hi Hw). reflexivity.
-      - unfold blank_done. rewrite Hi, Hw. reflexivity. }
-    rewrite E. apply (IH b st w Hi Hw).
+    induction ops as [|o ops IH]; intros b st w Hi Hw; [split; reflexivity|]. cbn [fold_left].
+    assert (E : exists st1, fst (step (b, st) o) = (b, st1) /\ d_watching st1 = d_watching st).
+    { destruct o as [s| |v]; cbn [blank_step fst snd].
+      - rewrite (blank_refuses_replacing_watcher_l b st w s Hi Hw). eexists. split; reflexivity.
+      - unfold blank_done. rewrite Hi, Hw. eexists. split; reflexivity.
+      - rewrite Hi. destruct w as [?|? [|]]; try discriminate.
+        + destruct (d_alive st); [|eexists; split; reflexivity].
+          unfold d_update. destruct (compose fs defaults (set_nth 0 v (d_slots st))) as [c|c|c];
+            [destruct (negb (d_skipv st) && negb (verify c))| |]; eexists; split; reflexivity.
+        + eexists. split; reflexivity. }
+    destruct E as (st1 & E & Hw1). rewrite E.
+    specialize (IH b st1 w Hi Hw). destruct (fold_left _ ops (b, st1)) as [b' st'].
+    destruct IH as [A B]. split; [exact A|congruence].
   Qed.
 End BlankProofs.
